@@ -87,6 +87,9 @@ func listFault(kind string) (runtime.Object, error) {
 	switch kind {
 	case "error":
 		return nil, errListFault
+	case "canceled":
+		// a transport-level abort: the error is context.Canceled although nobody is shutting down
+		return nil, fmt.Errorf("fake server: request aborted: %w", context.Canceled)
 	case "nil":
 		return nil, nil
 	case "nonlist":
@@ -206,7 +209,7 @@ func runCtrlScenario(t *testing.T, tr *tracer, idx int, seed uint64, mode string
 		}
 		if mode == "c14" || (mode == "" && r.Chance(1, 6)) {
 			w.listFaultAt = 1 + r.Intn(4)
-			w.listFaultKind = kv.Pick(r, []string{"error", "nil", "nonlist", "status", "nonobjects"})
+			w.listFaultKind = kv.Pick(r, []string{"error", "canceled", "nil", "nonlist", "status", "nonobjects"})
 		}
 		w.srv.RVStep = 1 + r.Intn(3)
 		if r.Chance(1, 4) {
